@@ -22,6 +22,7 @@ TOK_Q = ["a", " ", "%", "?", "#", "|", "+", "&", "\"", "^", ":", "..", "%41", "w
 TIERS = {
     "quick": dict(tokens=TOK_Q, maxtok=2, shapes=["wapiti", "a b 1", "GEMINI-QUERYx", "URL:a"],
                   inner=["a", " ", "%", "?", "|", "^", "wap", "URL:a", "a b 1", "x:y"], kinds2=["file"],
+                  deep=["{{"],
                   views=["G", "GP", "GD", "SG", "H", "HS", "W", "M", "S"], hls=["default", "full"],
                   full_only_kinds=("zip",), hi=[0xFF]),
     "thorough": dict(tokens=TOK_Q + ["=", "'", "<", "b 1", "\\"], maxtok=2,
@@ -29,6 +30,7 @@ TIERS = {
                              "PYGOPHERD-HTTPPROTO-ICONS"],
                      inner=["a", " ", "%", "?", "#", "|", "+", "&", "\"", "^", ":", "..", "%41", "URL:a", "a b 1", "x:y",
                             "text.gif", "wap", "GEMINI-QUERY"], kinds2=["file", "mbox", "dir"],
+                     deep=["{{", "}}", "{", "{^", "{ "],
                      views=["G", "GP", "GD", "SG", "SGP", "SGD", "H", "HS", "W", "M", "S"], hls=["default", "full"],
                      full_only_kinds=None, hi=[0xFF, 0xE9]),
 }
@@ -40,11 +42,13 @@ CONSTANTS
   Shapes <- K_Shapes
   InnerTokens <- K_InnerTokens
   Kinds2 <- K_Kinds2
+  DeepNames <- K_DeepNames
   Views <- K_Views
   HLs <- K_HLs
 INVARIANT QuoteOK
 INVARIANT ClosureKnown
 INVARIANT NoCrash
+INVARIANT LengthsCovered
 CHECK_DEADLOCK FALSE
 """
 TRACE_CFG = """SPECIFICATION TSpec
@@ -79,7 +83,7 @@ def _crawl_case(job):
 
 def model_check(chk, t, k):
     cfg = MC_CFG % dict(consts=k.cfg_block(), maxtok=t["maxtok"])
-    files = dict(k.tla_files({"Tokens": t["tokens"], "Shapes": t["shapes"], "InnerTokens": t["inner"], "Kinds2": t["kinds2"],
+    files = dict(k.tla_files({"Tokens": t["tokens"], "Shapes": t["shapes"], "InnerTokens": t["inner"], "Kinds2": t["kinds2"], "DeepNames": t["deep"],
                               "Views": t["views"], "HLs": t["hls"]}))
     files["MC_C05_run.cfg"] = cfg
     res = tlc.check_model("MC_C05", "MC_C05_run.cfg", extra_files=files, dump=True, timeout=2400)
@@ -192,7 +196,7 @@ def main(chk, replay=None):
                 if hl == "full" and t["full_only_kinds"]:
                     # quick tier: the full list differs from the shipped one only through ZIP/PYG/exec/TAL/compressed
                     # files: run it on every archive tree and on the single-token plain files and mailboxes
-                    sub = [c for c in cases if c["k"] in t["full_only_kinds"]
+                    sub = [c for c in cases if c["k"] in t["full_only_kinds"] or c["k"] == "deep"
                            or (c["k"] in ("file", "mbox") and c["n"] in t["tokens"] + t["shapes"])]
                 if hi != t["hi"][0]:
                     sub = [c for c in sub if "^" in c["n"] or "^" in c.get("m", "")]
@@ -235,7 +239,7 @@ def main(chk, replay=None):
         "bindings": ["B1 protocol order/waptop/query prefix from the tree", "B2 TLC-enumerated trees crawled",
                      "B3 TraceC05"],
         "timing": timing,
-        "tier_parameters": {x: t[x] for x in ("tokens", "maxtok", "shapes", "inner", "kinds2", "views", "hls", "hi")},
+        "tier_parameters": {x: t[x] for x in ("tokens", "maxtok", "shapes", "inner", "kinds2", "deep", "views", "hls", "hi")},
     }
     return chk.finish(cov, [
         "alpha = response classifiers and listing lexers of harness/c05_lib.py; a response counts as success only "
